@@ -181,6 +181,7 @@ class Runner:
         except Exception as ex:
             res = [("inconclusive", "engine exception: %s" % traceback.format_exc()[-1500:])]
         self.functions |= eng.called
+        res = list(res) + [(k, w) for (_, k, w) in eng.path_results if k == "inconclusive" and (k, w) not in res]
         inc = [r for r in res if r[0] in ("inconclusive", "budget")]
         for r in inc:
             self.incomplete.append(dict(entry=ent.label(), why=r[1]))
@@ -275,7 +276,8 @@ class Runner:
 
         def work(job):
             ent, eng, o, q, q1 = job
-            v, who, secs, answers = pf.solve_text(q["txt"], q["txt_cvc5"], q["tag"])
+            cap = min(self.cap, 10.0) if o["kind"] in ("ub", "def", "mem") else None
+            v, who, secs, answers = pf.solve_text(q["txt"], q["txt_cvc5"], q["tag"], cap=cap)
             used_defs = False
             if v != "unsat" and q1 is not None:
                 q = q1
